@@ -112,4 +112,29 @@ pub fn run(out: &mut Out, seed: u64, thorough: bool) {
             run_line(out, &mut s, "spec.bd");
         }
     }
+    // histories with a master reset in between (the board specification has no reset; these lines compare the real
+    // board with the model of the whole machine): an analog input, a DAC written above it, master reset, then the
+    // DAC written with the value the reset left there / with other values - comparator bit and interrupt flags read back
+    for (port, kind, src) in [(240u32, "ai1", 4u32), (241, "ai2", 5), (241, "temp", 5)] {
+        for hi in [250u32, 120, 1] {
+            for vin in [0.5f32, 2.0, 4.9] {
+                for after in [0u32, 1, hi] {
+                    for falling in [0u32, 8] {
+                        run_line(out, &mut s, "new");
+                        run_line(out, &mut s, &format!("{} {}", kind, vin.to_bits()));
+                        run_line(out, &mut s, &format!("busw 242 {}", 0xC0 | src | falling));
+                        run_line(out, &mut s, &format!("busw {} {}", port, hi));
+                        run_line(out, &mut s, "d");
+                        run_line(out, &mut s, "masterreset");
+                        run_line(out, &mut s, &format!("busw 242 {}", 0xC0 | src | falling));
+                        run_line(out, &mut s, &format!("busw {} {}", port, after));
+                        run_line(out, &mut s, "busr 241");
+                        run_line(out, &mut s, "busr 243");
+                        run_line(out, &mut s, "d");
+                        out.count("reset-then-dac-write");
+                    }
+                }
+            }
+        }
+    }
 }
